@@ -22,8 +22,7 @@ func init() {
 		{Pkg: "mime", Func: "ParseMediaType", Oracle: true},
 		{Pkg: "...", Func: "validateContentMediaType"},
 		{Pkg: "...", Func: "validateSigMediaType"},
-		// Refused, kept as documentation: `desc.Annotations[k] = v` (notation.go:286) on a by-value parameter whose map
-		// was replaced by a fresh one only under `if len(userMetadata) > 0` (aliasing rule is path-insensitive)
+		// translated since the path-sensitive ownership of map fields (C01_gen_addUserMetadataToDescriptor_equiv)
 		{Pkg: "...", Func: "addUserMetadataToDescriptor"},
 		// integrity classification (clause 4)
 		{Pkg: sig, Type: "Envelope", Opaque: true},
@@ -56,11 +55,23 @@ func init() {
 		{Pkg: tp, Func: "(*BlobDocument).GetApplicableTrustPolicy", Oracle: true},
 		{Pkg: sig, Func: "Algorithm.Hash", Oracle: true},
 		{Pkg: v, Func: "(*verifier).VerifyBlob"},
-		// Refused, kept as documentation of what is outside the subset:
-		// notation.VerifyBlob / getDescriptorFunc: depend on addUserMetadataToDescriptor; notation.Verify is C10's
-		// (targets_c10.go)
-		{Pkg: "...", Func: "VerifyBlob"},
+		// ---- notation.VerifyBlob and its blob descriptor generator (coq/theories/C01_GenDesc.v) ----
+		// The digester, its hash, io.Copy and the reader are opaque values / pure oracles (an Effect oracle is refused
+		// inside the function literal of getDescriptorFunc): the theorems quantify over them; what they pin is the
+		// wiring (ONE digester, the reader handed to io.Copy once, size = io.Copy's count, its error aborts). A blob
+		// hashed by any other routine of /repo changes the generated definition (C01_gen_getDescriptorFunc_spec).
+		{Pkg: "github.com/opencontainers/go-digest", Type: "Digester", Opaque: true},
+		{Pkg: "hash", Type: "Hash", Opaque: true},
+		{Pkg: "io", Type: "Reader", Opaque: true, Nilable: true},
+		{Pkg: "...", Type: "BlobVerifier", Nilable: true},
+		{Pkg: "io", Type: "Writer", Opaque: true},
+		{Pkg: "github.com/opencontainers/go-digest", Func: "Algorithm.Digester", Oracle: true},
+		{Pkg: "github.com/opencontainers/go-digest", Func: "Digester.Hash", Oracle: true},
+		{Pkg: "github.com/opencontainers/go-digest", Func: "Digester.Digest", Oracle: true},
+		{Pkg: "io", Func: "Copy", Oracle: true},
 		{Pkg: "...", Func: "getDescriptorFunc"},
+		{Pkg: "...", Func: "VerifyBlob"},
+		// notation.Verify is C10's (targets_c10.go); kept here as refused
 		{Pkg: "...", Func: "Verify"},
 	})
 }
